@@ -4,6 +4,7 @@ package props
 
 import (
 	"context"
+	"encoding/json"
 	"fmt"
 	"log/slog"
 	"strings"
@@ -565,8 +566,35 @@ func propC05(t *rapid.T) {
 		"setLevel": func(*rapid.T) {
 			al := atomics[rapid.IntRange(0, len(atomics)-1).Draw(t, "atomic")]
 			nl := zapcore.Level(rapid.OneOf(rapid.Int8Range(-2, 6), rapid.Int8()).Draw(t, "newLevel"))
-			al.SetLevel(nl)
-			history = append(history, fmt.Sprintf("setLevel(%d)", int8(nl)))
+			// the routes by which a shared threshold is changed in practice: SetLevel, or text decoding INTO the
+			// handle in use (encoding.TextUnmarshaler as driven by encoding/json, yaml, flag.TextVar), directly or
+			// through a copy of the handle; all of them must reach every core built on the level earlier
+			route := "SetLevel"
+			if nl >= zapcore.DebugLevel && nl <= zapcore.FatalLevel {
+				route = rapid.SampledFrom([]string{"SetLevel", "UnmarshalText", "copy.UnmarshalText", "json.Unmarshal", "json.Unmarshal(struct)"}).Draw(t, "setRoute")
+			}
+			var rerr error
+			switch route {
+			case "SetLevel":
+				al.SetLevel(nl)
+			case "UnmarshalText":
+				rerr = al.UnmarshalText([]byte(nl.String()))
+			case "copy.UnmarshalText":
+				cp := *al
+				rerr = cp.UnmarshalText([]byte(strings.ToUpper(nl.String())))
+			case "json.Unmarshal":
+				rerr = json.Unmarshal([]byte(`"`+nl.String()+`"`), al)
+			case "json.Unmarshal(struct)":
+				holder := struct{ Level zap.AtomicLevel }{Level: *al}
+				rerr = json.Unmarshal([]byte(`{"Level":"`+nl.String()+`"}`), &holder)
+			}
+			if rerr != nil {
+				t.Fatalf("changing a shared AtomicLevel to %v by %s failed: %v", nl, route, rerr)
+			}
+			if got := al.Level(); got != nl {
+				t.Fatalf("after changing a shared AtomicLevel to %v by %s the handle the loggers were built from reports %v", nl, route, got)
+			}
+			history = append(history, fmt.Sprintf("setLevel(%d by %s)", int8(nl), route))
 			if lastWasLog {
 				atomicChanged = true
 			}
